@@ -52,8 +52,18 @@ def seed_obj(v, fresh):
     return int(str(v)) if fresh else _SHARED[v]
 
 
+FOURIER_ODD = [False]    # variant with (mode number, period) pairs for which a float arange over the wave numbers
+                         # is prone to produce one element too many: 26 modes / period 8, 14 modes / period 17
+
+
 def period_of(tok, dim):
+    if FOURIER_ODD[0]:
+        return [8.0] * dim if tok == 1 else [17.0, 8.0, 16.0][:dim]
     return [8.0] * dim if tok == 1 else [8.0, 16.0, 12.0][:dim]
+
+
+def fourier_modes(tok):
+    return {4: 26, 6: 14}[tok] if FOURIER_ODD[0] else tok
 
 
 def mc_text(name, kind, dim, size, seed_compare="value", dk_refresh=True):
@@ -114,7 +124,7 @@ class Real:
         self.cls = getattr(gs, cls)
         kw = dict(seed=seed_obj(st["seed"], fresh))
         if kind == "Fourier":
-            kw.update(mode_no=[st["modeNo"]] * dim, period=period_of(st["period"], dim))
+            kw.update(mode_no=[fourier_modes(st["modeNo"])] * dim, period=period_of(st["period"], dim))
         else:
             kw.update(mode_no=st["modeNo"] * MODE_SCALE[0])
         gen = {"RandMeth": "RandMeth", "Fourier": "Fourier", "IncomprRandMeth": "IncomprRandMeth"}[kind]
@@ -144,7 +154,7 @@ class Real:
         elif n == "AssignModel":
             srf.model = self.model(op["m"])
         elif n == "GenModeNo":
-            srf.generator.mode_no = [op["v"]] * self.dim if self.kind == "Fourier" else op["v"] * MODE_SCALE[0]
+            srf.generator.mode_no = [fourier_modes(op["v"])] * self.dim if self.kind == "Fourier" else op["v"] * MODE_SCALE[0]
         elif n == "GenPeriod":
             srf.generator.period = period_of(op["v"], self.dim)
         elif n == "GenSeed":
@@ -163,7 +173,7 @@ _REF = {}
 
 def reference(kind, cls, dim, want, X, tag="grid"):
     """Field of a freshly constructed SRF with the settings `want` (nugget-free) at the positions X."""
-    key = (kind, cls, dim, tlaval.freeze(want), tag, MODE_SCALE[0])
+    key = (kind, cls, dim, tlaval.freeze(want), tag, MODE_SCALE[0], FOURIER_ODD[0])
     if key not in _REF:
         st = {"seed": want["seed"], "modeNo": want["modeNo"], "period": want["period"],
               "pm": {"var": want["var"], "len": want["len"], "anis": want["anis"], "ang": want["ang"], "nug": 0}}
@@ -332,6 +342,7 @@ def _work(job):
     tag, kind, speckind, cls, dim, scdir, cap, rseed, tier = job
     many_modes = tag.endswith("/manymodes")
     MODE_SCALE[0] = 32 if many_modes else 1
+    FOURIER_ODD[0] = tag.endswith("/roundingprone")
     warnings.simplefilter("ignore")
     rng = random.Random(rseed)
     col = _Collect()
@@ -593,6 +604,9 @@ def run(pid, tier, seed, replay=None):
                         continue
                     work.append(("%s/%s/%d" % (kind, cls, dim), kind, sk, cls, dim, sc.dir,
                                  (1000 if thorough else (300 if pid == "C17" else 120)), rng.randrange(2**31), tier))
+        for dim in (1, 2):
+            work.append(("Fourier/Gaussian/%d/roundingprone" % dim, "Fourier", "Fourier", "Gaussian", dim, sc.dir,
+                         (150 if thorough else 60), rng.randrange(2**31), tier))
         if pid == "C11":
             for kind in ("RandMeth", "IncomprRandMeth"):
                 work.append(("%s/Gaussian/3/manymodes" % kind, kind, "RandMeth", "Gaussian", 3, sc.dir, 40, rng.randrange(2**31), tier))
